@@ -3,6 +3,7 @@ import MinterModel.QRlp
 import MinterModel.BancorQ
 import MinterModel.Events
 import MinterModel.Persist
+import MinterModel.BeginBlock
 /-
   Dispatcher over every component's `Q` evaluator.  A component adds one line here.
 -/
@@ -15,5 +16,6 @@ def evalQ (fn : String) (args : List String) : Option String :=
   <|> bancorEvalQ fn args
   <|> eventsEvalQ fn args
   <|> Persist.persistEvalQ fn args
+  <|> beginEvalQ fn args
 
 end Minter
